@@ -58,11 +58,23 @@ PROPS = {
             'requests are delivered whole; fragmentation is C10',
         ],
     },
+    'C05': {
+        'engine': 'simd', 'profile': 'C05', 'level': 'exploration',
+        'rules': ['R-FIELDS', 'R-DUR', 'R-RESTART', 'R-ONCE', 'R-SPUR', 'R-EARLY', 'R-NEXT', 'R-DURABLE', 'R-SNAP',
+                  'R-REPLY', 'R-CRASHFREE'],
+        'gopts': {'property': 'C05'}, 'mopts': {'fields': True},
+        'quick': {'budget': 55, 'runs': 100000}, 'thorough': {'budget': 900, 'runs': 10000000},
+        'assumptions': [
+            'field values contain no backslashes (escape semantics are undocumented); lines stay below the 1 KiB limit',
+            'tasks of the strict campaign have one RRULE and no RDATE/EXDATE/EXRULE (known finding C05/serialise-multi is replayed separately)',
+            'occurrence times after each restart are computed by the runner, not by echse',
+        ],
+    },
     'C06': {
         'engine': 'simd', 'profile': 'C06', 'level': 'fault_enumeration',
         'rules': ['R-SPOOL', 'R-DURABLE', 'R-CLEAN', 'R-SNAP', 'R-RESTART', 'R-ONCE', 'R-SPUR', 'R-LIST', 'R-CRASHFREE'],
         'gopts': {'property': 'C06'}, 'mopts': {},
-        'quick': {'budget': 55, 'runs': 100000}, 'thorough': {'budget': 900, 'runs': 10000000},
+        'quick': {'budget': 45, 'runs': 100000}, 'thorough': {'budget': 900, 'runs': 10000000},
         'assumptions': [
             '"crash" is a crash of the echsd process (only what the kernel has survives); power loss without fsync is out of scope, echsd never calls fsync',
             'a completed checkpoint for a user is defined by the observable event renameat() returned 0 for that user\'s file',
@@ -174,12 +186,17 @@ def run_check(prop, tier, budget=None, runs=None, seed=None, workers=None, no_mi
     for k in known:
         if k.get('status') != 'known':
             continue
-        w = k.get('witness')
-        if w and os.path.exists(os.path.join(VERIF, w)):
-            ok, _ = replay_file(os.path.join(VERIF, w), quiet=True)
-            if ok:
-                print('KNOWN-FINDING: property=%s %s' % (prop, k['text']))
-                known_hit += 1
+        ws = k.get('witness') or []
+        if isinstance(ws, str):
+            ws = [ws]
+        hit = False
+        for w in ws:
+            if os.path.exists(os.path.join(VERIF, w)):
+                ok, _ = replay_file(os.path.join(VERIF, w), quiet=True)
+                hit = hit or ok
+        if hit:
+            print('KNOWN-FINDING: property=%s %s' % (prop, k['text']))
+            known_hit += 1
 
     # 2. campaign
     n = 0
@@ -222,10 +239,6 @@ def run_check(prop, tier, budget=None, runs=None, seed=None, workers=None, no_mi
             samples.append(res['seed'])
         for v in res['viol']:
             if not relevant(v, cfg):
-                continue
-            k = match_known(v, known)
-            if k is not None:
-                known_seen[k['sig']] = known_seen.get(k['sig'], 0) + 1
                 continue
             s = sig_of(v)
             if s not in viols:
